@@ -75,7 +75,7 @@ impl Property for P {
                     build_variant: 0,
                 };
                 let le = cfg.line_ending().len();
-                let ops = crate::hist::ops_strat_f(Some(n), mode.buffer_cap(), le, false, 40, !mode.is_async());
+                let ops = crate::hist::ops_strat_f(Some(n), mode.buffer_cap(), le, false, 40, true);
                 let is_async = mode.is_async();
                 (
                     Just(cfg),
